@@ -327,3 +327,51 @@ func TestVerifFindingF15(t *testing.T) {
 		t.Fatalf("messages without a prior Info(): %d, after Info(): %d; want 5 and 5", a, b)
 	}
 }
+
+// F16 (C07): with chunk validation on, a damaged lz4 frame ended the read with an error that is io.EOF.
+func TestVerifFindingF16(t *testing.T) {
+	buf := &bytes.Buffer{}
+	w, err := NewWriter(buf, &WriterOptions{Chunked: true, ChunkSize: 64, Compression: CompressionLZ4, IncludeCRC: true})
+	if err != nil {
+		t.Fatal(err)
+	}
+	_ = w.WriteHeader(&Header{})
+	_ = w.WriteSchema(&Schema{ID: 1, Name: "s", Encoding: "e"})
+	_ = w.WriteChannel(&Channel{ID: 1, SchemaID: 1, Topic: "/a", MessageEncoding: "x"})
+	for i := 0; i < 20; i++ {
+		if err := w.WriteMessage(&Message{ChannelID: 1, LogTime: uint64(i), Data: bytes.Repeat([]byte{byte(i)}, 20)}); err != nil {
+			t.Fatal(err)
+		}
+	}
+	if err := w.Close(); err != nil {
+		t.Fatal(err)
+	}
+	orig := buf.Bytes()
+	idx := bytes.Index(orig, []byte{0x04, 0x22, 0x4d, 0x18}) // lz4 frame magic of the first chunk
+	if idx < 0 {
+		t.Fatal("no lz4 frame found")
+	}
+	for byteOff := 0; byteOff < 8; byteOff++ {
+		for bit := 0; bit < 8; bit++ {
+			data := append([]byte{}, orig...)
+			data[idx+byteOff] ^= 1 << bit
+			lex, err := NewLexer(bytes.NewReader(data), &LexerOptions{ValidateChunkCRCs: true})
+			if err != nil {
+				t.Fatal(err)
+			}
+			msgs := 0
+			for {
+				tok, _, err := lex.Next(nil)
+				if err != nil {
+					if errors.Is(err, io.EOF) && msgs < 20 {
+						t.Errorf("flip of bit %d of byte %d of the first chunk's payload: the read ends with an error that is io.EOF (%v) after %d of 20 messages", bit, byteOff, err, msgs)
+					}
+					break
+				}
+				if tok == TokenMessage {
+					msgs++
+				}
+			}
+		}
+	}
+}
